@@ -34,6 +34,11 @@ CHECKS = {
    note="Trusted: ref/smf. Bounded by the stated alphabets; N >= 65536 excluded.",
    technique="bounded-exhaustive enumeration of documents x configurations on the real code vs. a strict independent SMF decoder",
    ref="DESIGN.md §4 C08"),
+ "C12": dict(
+   text="The two real sources of nondeterminism are put under the explorer's control, on code rewritten from the working tree at check time (go build -overlay, nothing committed): (1) every map-iteration site is driven, per command-input and per site it reaches, through all rotations of the sorted and of the reversed key order (a family that puts every key first and every pair in both orders; pairs of sites in thorough), each vector one run of the rewritten binary compared byte-for-byte with the default order and with the plain binary; (2) the goroutine+channel iterator behind AST classification runs under a cooperative scheduler: all interleavings for trees of <= 2 chords (224 808 schedules each), preemption-bounded for 8- and 40-chord trees, outcome vs. a sequential reference walk, deadlock and panic detection; (3) the finite product of I/O paths {stdin, -, FILE} x {stdout, -o} x --debug; supplementary free-running repetition under GOMAXPROCS 1/2/16 and a -race pass (thorough).",
+   note="Scheduling points are the synchronisation operations; real memory-ordering effects are outside (supplementary -race pass only). A construct the scheduler does not model (select, atomics, timers) yields no verdict for that part (exhaustive:false), never a guess.",
+   technique="stateless model checking of the real goroutine code under a controlled scheduler (preemption-bounded DFS) + exhaustive enumeration of controlled map-iteration orders and I/O configurations",
+   ref="DESIGN.md §4 C12"),
  "C13": dict(
    text="Complete enumeration of the finite space the property quantifies over: all 42 spellings [A-G][#b]?m? through three observation paths (op.NewScale in-process, `crd info key describe`, `crd info key list`) of the real code, each compared with an independent line-of-fifths model; unbounded verdict because the space is finite.",
    note="Trusted: ref/theory (line-of-fifths arithmetic, independent of op/scale.go), yaml.v3, Go runtime.",
